@@ -377,6 +377,7 @@ func (w *world) connect() {
 	}
 	sc := Wrap(fmt.Sprintf("srv%d", w.conn), &onceCloser{Channel: srv}, w.cfg.Yield, faults)
 	sc.Fragile = w.cfg.Chan == "fragile"
+	sc.ReuseRecv = w.cfg.Chan == "fragile" // one buffer for frames going out, one for records coming in
 	conn := w.conn
 	sc.onEvent = func(kind string, data []byte, err error) {
 		w.log(Event{Kind: kind, Conn: conn, Data: string(data), Err: errStr(err)})
